@@ -326,6 +326,15 @@ namespace
     std::vector<DFS::byte> buf;
     buf.resize(len);
     const size_t bytes_read = fread(buf.data(), 1, buf.size(), f_);
+    if (ferror(f_))
+      {
+	// A read error part-way through must not be mistaken for the
+	// end of the file (a short read); OsFile::read reports
+	// errors on an uncompressed image file too.
+	const int saved_errno = errno;
+	clearerr(f_);
+	throw FileIOError(name_, saved_errno ? saved_errno : EIO);
+      }
     if (bytes_read == 0)
       return fail();
     buf.resize(bytes_read);
